@@ -394,3 +394,9 @@ def replay(rec):
         return not disagree(h)
     ncol, bad, direct = column_cases()
     return not bad and not direct
+
+
+def generate():
+    """translator tie: regenerate coq/Gen/SrcCursor.v from the source of the imported code (py2mini)"""
+    from . import gen_src
+    return gen_src.generate('cursor')
